@@ -276,8 +276,14 @@ def finish(pid, tier, seed, t0, part, rule, level='exploration', exhaustive=True
         pid, tier, seed, part.n, len(part.keys), len(part.outcomes), len(hits), len(new), time.time() - t0))
     if level == 'model_checking':
         print('  states=%d transitions=%d traces_validated_against_impl=%d' % (part.states, part.transitions, part.traces))
+    shown = 0
     for l in lines:
-        print(l)
+        if l.startswith('VIOLATION'):
+            shown += 1
+            if shown == 26:
+                print('... %d more new violation signatures (replay files written for all)' % (len(new) - 25))
+        if shown <= 25 or l.startswith('KNOWN-FINDING'):
+            print(l[:400])
     sys.stdout.flush()
     return 1 if new else 0
 
